@@ -1,5 +1,6 @@
 // Package c02: correspondence driver for C02 (Synchronization objects and snapshots equal
-// the set of matching objects).  Four kinds of cases:
+// the set of matching objects).  Five kinds of cases (the fifth, win.go: changes between the creation
+// of a monitor and its start):
 //   - snap: a real monitor on a fake cluster follows a history of create/modify/delete over
 //     several namespaces and names; at quiescence (and after a restart) its Snapshot() is
 //     compared entry by entry (identity, filterResult, object) with the matching objects of the cluster;
@@ -97,6 +98,8 @@ type Input struct {
 	// so that a failing case can be shortened (Spec.ShrinkKey)
 	Dyn    *DynIn  `json:"dyn,omitempty"`
 	DynOps []DynOp `json:"dyn_ops,omitempty"`
+	// win: changes between the creation of a monitor and its start (win.go)
+	Win *WinIn `json:"win,omitempty"`
 }
 
 type UpdCtxObs struct {
@@ -540,6 +543,8 @@ func Run(in Input) Obs {
 		return runGrp(*in.Grp)
 	case in.Dyn != nil:
 		return runDyn(*in.Dyn, in.DynOps)
+	case in.Win != nil:
+		return runWin(*in.Win)
 	}
 	return Obs{Note: "empty input"}
 }
@@ -632,6 +637,8 @@ func Render(in Input, obs *Obs, crash string) core.Case {
 		c.Tags = []string{"grp"}
 	case in.Dyn != nil:
 		renderDyn(*in.Dyn, in.DynOps, o, bad, &c)
+	case in.Win != nil:
+		renderWin(*in.Win, o, bad, &c)
 	}
 	return c
 }
@@ -762,12 +769,13 @@ func Gen(r *core.Rng, tier string) ([]core.In[Input], bool) {
 	// an EMPTY snapshot is read once per execution, too (a second read of a locked binding drops its buffered events: C01)
 	add(Input{Upd: &UpdIn{Bindings: []UpdBinding{{1, []int{1}, false}, {2, []int{1}, false}}, Ctxs: []UpdCtx{{1, true}, {2, false}, {1, false}}, Empty: []int{1}}}, "corpus")
 	dynCorpus(add)
-	nSnap, nUpd, nDyn := 120, 300, 100
+	winCorpus(add)
+	nSnap, nUpd, nDyn, nWin := 120, 300, 100, 100
 	switch tier {
 	case "thorough":
-		nSnap, nUpd, nDyn = 2000, 20000, 2500
+		nSnap, nUpd, nDyn, nWin = 2000, 20000, 2500, 2500
 	case "search":
-		nSnap, nUpd, nDyn = 300, 2000, 400
+		nSnap, nUpd, nDyn, nWin = 300, 2000, 400, 400
 	}
 	for i := 0; i < nSnap; i++ {
 		s := genSnap(r, 3+r.Intn(10))
@@ -775,9 +783,14 @@ func Gen(r *core.Rng, tier string) ([]core.In[Input], bool) {
 	}
 	// the dyn cases (slower) are spread over the upd cases so that every worker gets its share
 	every := nUpd / nDyn
+	everyWin := nUpd / nWin
 	for i := 0; i < nUpd; i++ {
 		u := genUpd(r)
 		add(Input{Upd: &u}, "upd")
+		if i%everyWin == 0 && i/everyWin < nWin {
+			w := genWin(r)
+			add(Input{Win: &w}, "win")
+		}
 		if i%every == 0 && i/every < nDyn {
 			d, ops := genDyn(r, 3+r.Intn(12))
 			st := "dyn"
@@ -802,7 +815,7 @@ func Gen(r *core.Rng, tier string) ([]core.In[Input], bool) {
 }
 
 var Driver = core.Driver[Input, Obs]{
-	Spec: core.Spec{Property: "C02", Imports: []string{"C02_Model", "C02_Spec", "C02_Comp", "C02_CompSpec", "C02_Corr"}, Corr: "C02_Corr", Triggers: []string{"F25", "F26", "F32"}, ShrinkKey: "dyn_ops",
-		Rule: "snap: a real monitor on a fake cluster (static namespaces / all namespaces, nameSelector with repeated entries, initial objects, with and without jqFilter .data, keepFullObjectsInMemory true/false; object content = a part the filter selects + a label outside it, 35% of modifications touch only the latter) follows generated create/modify/delete histories over 3 namespaces x 3 names, Snapshot() at quiescence and after a restart compared entry by entry (identity, filterResult, object) with the matching objects of the cluster; upd: the real HookController.UpdateSnapshots over a reader that answers differently on every call, random include topologies and context arrays; grp: a real hook config with two kubernetes bindings sharing a group, named and unnamed (trigger F25); one ghost scenario (trigger F26); dyn: a real monitor with namespace.labelSelector (matchLabels or matchExpressions; its REAL namespace informer on the fake cluster, whose Namespace objects are kept equal to what a label-filtered watch shows; with and without nameSelector / jqFilter / keepFullObjectsInMemory) follows generated histories over 3 namespaces x 3 names of object create/modify/delete (objects moving between namespaces), namespaces created with or without the label / gaining or losing it / deleted (with their objects left behind, or deleted too), changes that keep a namespace matching, and operator restarts; namespaces matching at the start, at a restart and only later all stop matching and match again; Snapshot() at every read point (1-5 per history) compared entry by entry with the objects of the namespaces that match THEN; two histories in five run beside a companion binding of the same kind and names with static namespaces (created before or after the first binding's monitor, also at restarts; same or different debug name; its informers share the first binding's shared informers of the factory store), whose snapshot at every read point is compared entry by entry with the objects of ITS namespaces (C02_Comp / C02_CompSpec.P_comp); fixed corpus of 13 such histories; failing dyn histories are shortened; non-trivial = >=3 cluster operations or >=2 contexts; distinct by input"},
+	Spec: core.Spec{Property: "C02", Imports: []string{"C02_Model", "C02_Spec", "C02_Comp", "C02_CompSpec", "C02_Win", "C02_WinSpec", "C02_Corr"}, Corr: "C02_Corr", Triggers: []string{"F25", "F26", "F32"}, ShrinkKey: "dyn_ops",
+		Rule: "snap: a real monitor on a fake cluster (static namespaces / all namespaces, nameSelector with repeated entries, initial objects, with and without jqFilter .data, keepFullObjectsInMemory true/false; object content = a part the filter selects + a label outside it, 35% of modifications touch only the latter) follows generated create/modify/delete histories over 3 namespaces x 3 names, Snapshot() at quiescence and after a restart compared entry by entry (identity, filterResult, object) with the matching objects of the cluster; upd: the real HookController.UpdateSnapshots over a reader that answers differently on every call, random include topologies and context arrays; grp: a real hook config with two kubernetes bindings sharing a group, named and unnamed (trigger F25); one ghost scenario (trigger F26); dyn: a real monitor with namespace.labelSelector (matchLabels or matchExpressions; its REAL namespace informer on the fake cluster, whose Namespace objects are kept equal to what a label-filtered watch shows; with and without nameSelector / jqFilter / keepFullObjectsInMemory) follows generated histories over 3 namespaces x 3 names of object create/modify/delete (objects moving between namespaces), namespaces created with or without the label / gaining or losing it / deleted (with their objects left behind, or deleted too), changes that keep a namespace matching, and operator restarts; namespaces matching at the start, at a restart and only later all stop matching and match again; Snapshot() at every read point (1-5 per history) compared entry by entry with the objects of the namespaces that match THEN; two histories in five run beside a companion binding of the same kind and names with static namespaces (created before or after the first binding's monitor, also at restarts; same or different debug name; its informers share the first binding's shared informers of the factory store), whose snapshot at every read point is compared entry by entry with the objects of ITS namespaces (C02_Comp / C02_CompSpec.P_comp); fixed corpus of 13 such histories; failing dyn histories are shortened; win: the START WINDOW of a monitor (C02_Win): a real monitor is created on the fake cluster (CreateInformers / loadExistedObjects), the cluster is changed (1-8 operations: objects modified inside and outside what the jqFilter selects, deleted and re-created with other content, created, rarely deleted for good = trigger F26), then the monitor is started (the shared informers' own list, OnAdd with isInInitialList, and watch), in 55% of the cases nothing happens afterwards; static bindings (named / all namespaces, nameSelector, repeated entries) and namespace.labelSelector bindings (labelled and unlabelled namespaces), at an operator start and at a restart (35%: a previous monitor has followed a first part of the history and was cancelled); Snapshot() at quiescence compared entry by entry with the matching objects of the final cluster (C02_WinSpec.P_win); fixed corpus of 11 windows; non-trivial = >=3 cluster operations or >=2 contexts; distinct by input"},
 	Gen: Gen, Run: Run, Render: Render, PerShard: 400, Workers: 8, CaseTimout: 40 * time.Second,
 }
